@@ -131,9 +131,16 @@ pub fn unhex(s: &str) -> Vec<u8> {
 	(0..s.len() / 2).map(|i| u8::from_str_radix(&s[2 * i..2 * i + 2], 16).unwrap()).collect()
 }
 
+thread_local! {
+	static IN_GUARD: std::cell::Cell<u32> = const { std::cell::Cell::new(0) };
+}
+
 /// Run `f` catching panics; `Err(msg)` if it panicked.
 pub fn guarded<R>(f: impl FnOnce() -> R) -> Result<R, String> {
-	catch_unwind(AssertUnwindSafe(f)).map_err(|e| {
+	IN_GUARD.with(|g| g.set(g.get() + 1));
+	let r = catch_unwind(AssertUnwindSafe(f));
+	IN_GUARD.with(|g| g.set(g.get() - 1));
+	r.map_err(|e| {
 		if let Some(s) = e.downcast_ref::<&str>() {
 			s.to_string()
 		} else if let Some(s) = e.downcast_ref::<String>() {
@@ -144,8 +151,15 @@ pub fn guarded<R>(f: impl FnOnce() -> R) -> Result<R, String> {
 	})
 }
 
+/// Panics of the subject inside `guarded` are expected observations and stay silent; a panic
+/// anywhere else is a bug of the harness and is printed.
 pub fn silence_panics() {
-	std::panic::set_hook(Box::new(|_| {}));
+	let default = std::panic::take_hook();
+	std::panic::set_hook(Box::new(move |info| {
+		if IN_GUARD.with(|g| g.get()) == 0 {
+			default(info);
+		}
+	}));
 }
 
 static HB_DIR: Mutex<Option<PathBuf>> = Mutex::new(None);
@@ -490,5 +504,14 @@ pub fn registry() -> Vec<VT> {
 	v.sort_by_key(|(i, _)| *i);
 	let mut out: Vec<VT> = v.into_iter().map(|(_, t)| t).collect();
 	out.extend(subjects::registry::derived());
+	let mut d: Vec<(usize, VT)> = vec![];
+	d.extend(regd0::types());
+	d.extend(regd1::types());
+	d.extend(regd2::types());
+	d.extend(regd3::types());
+	d.extend(regd4::types());
+	d.extend(regd5::types());
+	d.sort_by_key(|(i, _)| *i);
+	out.extend(d.into_iter().map(|(_, t)| t));
 	out
 }
